@@ -278,6 +278,7 @@ def c12(ctx):
     # the telescoped bound at the real presets (driver: random models incl. probabilities of 1 and 2^P-1 quanta)
     ctx.vh("drive_bound", extra=["--n", "20000" if ctx.tier == "thorough" else "3000"])
     ctx.require("default_preset_overhead_below_0.006")
+    ctx.require("bound_adversarial_message")
     c12_ans(ctx)
     range_hists(ctx, ["TypeInv", "StateInv", "WordsBound", "StepBound"], "c12")
     ctx.require("bits_bound_evaluated")
